@@ -9,7 +9,8 @@ namespace {
 struct RSite { int orb, spin; };
 typedef std::map<std::string, RSite> RSites;
 
-struct LOp { bool is_site; SiteSpec site; Gen g; std::string repr() const { return is_site ? "addSite(" + site.label + "," + std::to_string(site.orb) + "," + std::to_string(site.spin) + ")" : g.repr(); } };
+struct LOp { bool is_site; SiteSpec site; Gen g; int query; /* 0 none; 1 getTerms(n) 2 getMaxTermOrder 3 printTerms(n) 4 getSiteMap walk */ int qarg; LOp() : is_site(false), query(0), qarg(0) {}
+    std::string repr() const { if (query == 1) return "getTerms(" + std::to_string(qarg) + ")"; if (query == 2) return "getMaxTermOrder()"; if (query == 3) return "printTerms(" + std::to_string(qarg) + ")"; if (query == 4) return "printSites()"; return is_site ? "addSite(" + site.label + "," + std::to_string(site.orb) + "," + std::to_string(site.spin) + ")" : g.repr(); } };
 
 std::string term_str(const Lattice::Term& T) {
     std::ostringstream o; o.precision(12); o << cd(T.Value).real() << "," << cd(T.Value).imag() << "*";
@@ -17,18 +18,21 @@ std::string term_str(const Lattice::Term& T) {
     return o.str();
 }
 std::vector<std::string> dump_terms(const Lattice& L, unsigned order) { std::vector<std::string> v; const Lattice::TermList& tl = L.getTermStorage().getTerms(order); for (auto it = tl.begin(); it != tl.end(); ++it) v.push_back(term_str(**it)); return v; }
+// abstraction of a lattice = canonical key of the BFS.  It must not disturb the object, so it reads the private containers
+// directly (harness TUs are compiled with -fno-access-control) and never goes through the public lookups.
 std::string dump(const Lattice& L) {
     std::string s = "sites:";
-    for (auto it = L.getSiteMap().begin(); it != L.getSiteMap().end(); ++it) s += it->first + "=" + std::to_string(it->second->OrbitalSize) + "x" + std::to_string(it->second->SpinSize) + ";";
+    for (auto it = L.Sites.begin(); it != L.Sites.end(); ++it) s += it->first + "=" + std::to_string(it->second->OrbitalSize) + "x" + std::to_string(it->second->SpinSize) + ";";
     s += "|terms:"; std::vector<std::string> all;
-    for (unsigned n = 0; n <= 8; ++n) { std::vector<std::string> v = dump_terms(L, n); for (auto& t : v) all.push_back(std::to_string(n) + ":" + t); }
+    for (auto& kv : L.Terms->Terms) for (auto it = kv.second.begin(); it != kv.second.end(); ++it) all.push_back(std::to_string(kv.first) + ":" + term_str(**it));
     std::sort(all.begin(), all.end()); for (auto& t : all) s += t + ";";
+    // hidden bookkeeping that later calls depend on (queries are transitions of the history too: they may have side effects)
+    s += "|orders:"; for (auto& kv : L.Terms->Terms) s += std::to_string(kv.first) + ","; s += "|max:" + std::to_string(L.Terms->MaxTermOrder);
     return s;
 }
-
 std::string dump_nonzero(const Lattice& L) {
     std::vector<std::string> all;
-    for (unsigned n = 0; n <= 8; ++n) { const Lattice::TermList& tl = L.getTermStorage().getTerms(n); for (auto it = tl.begin(); it != tl.end(); ++it) if (std::abs(cd((*it)->Value)) != 0) all.push_back(term_str(**it)); }
+    for (auto& kv : L.Terms->Terms) for (auto it = kv.second.begin(); it != kv.second.end(); ++it) if (std::abs(cd((*it)->Value)) != 0) all.push_back(term_str(**it));
     std::sort(all.begin(), all.end()); std::string s; for (auto& t : all) s += t + ";"; return s;
 }
 // reference: is the call defined on these sites?  (Lattice.h / LatticePresets.h; size-match rules as the presets' own messages state them)
@@ -54,6 +58,7 @@ std::vector<LOp> make_alphabet(bool thorough) {
     auto site = [&](const char* l, int o, int s) { LOp x; x.is_site = true; x.site.label = l; x.site.orb = o; x.site.spin = s; A.push_back(x); };
     site("A", 1, 2); site("B", 1, 2); site("B", 1, 1); site("B", 2, 2); site("a", 1, 2); if (thorough) { site("A", 2, 2); site("a", 1, 3); }
     auto gen = [&](Gen g) { LOp x; x.is_site = false; x.g = g; A.push_back(x); };
+    for (int n : { 2, 4 }) { LOp q; q.query = 1; q.qarg = n; A.push_back(q); } { LOp q; q.query = 2; A.push_back(q); } { LOp q; q.query = 3; q.qarg = 4; A.push_back(q); } { LOp q; q.query = 4; A.push_back(q); }
     auto raw2 = [&](const char* l1, int o1, int s1, const char* l2, int o2, int s2, double v) { Gen g; g.kind = RAW; g.v[0] = v; RawOp a = { true, l1, (unsigned short)o1, (unsigned short)s1 }, b = { false, l2, (unsigned short)o2, (unsigned short)s2 }; g.raw = { a, b }; gen(g); };
     raw2("A", 0, 0, "B", 0, 0, 1.5);       // valid when A,B exist
     raw2("A", 0, 1, "A", 0, 0, -1.0);      // valid spin flip on A
@@ -101,12 +106,13 @@ struct RState { RSites sites; std::vector<std::string> rawterms; };   // referen
 
 void replay(Lattice& L, RState& R, const std::vector<LOp>& A, const std::vector<int>& h) {
     for (int k : h) { const LOp& op = A[k];
+        if (op.query) { if (op.query == 1) { volatile size_t n = L.getTermStorage().getTerms(op.qarg).size(); (void)n; } else if (op.query == 2) { volatile unsigned n = L.getTermStorage().getMaxTermOrder(); (void)n; } else if (op.query == 3) L.printTerms(op.qarg); else L.printSites(); continue; }
         if (op.is_site) { L.addSite(new Lattice::Site(op.site.label, op.site.orb, op.site.spin)); RSite s = { op.site.orb, op.site.spin }; R.sites[op.site.label] = s; }
         else { apply_lib(L, op.g); } }
 }
 
 bool all_terms_valid(const Lattice& L, const RSites& S, std::string& bad) {
-    for (unsigned n = 0; n <= 8; ++n) { const Lattice::TermList& tl = L.getTermStorage().getTerms(n);
+    for (auto& kv : L.Terms->Terms) { const Lattice::TermList& tl = kv.second;
         for (auto it = tl.begin(); it != tl.end(); ++it) { const Lattice::Term& T = **it;
             for (unsigned i = 0; i < T.getOrder(); ++i) { auto f = S.find(T.SiteLabels[i]); if (f == S.end() || T.Orbitals[i] >= f->second.orb || T.Spins[i] >= f->second.spin) { bad = term_str(T); return false; } } } }
     return true;
@@ -158,8 +164,9 @@ int run(const Args& a, Recorder& rec) {
                     else if (rc >= 200 || rc == 90 || rc == 91) rec.violation(std::string("C20:getSite:crash:") + (known ? "known" : "unknown"), "getSite crashed or threw something else (status " + std::to_string(rc) + ")", hr + " getSite(" + lab + ")");
                 }
                 // terms retrievable by order; max order
-                unsigned maxo = 0; size_t total = 0; for (unsigned n = 0; n <= 8; ++n) { size_t k = dump_terms(L, n).size(); total += k; if (k) maxo = n; }
+                unsigned maxo = 0; for (auto& kv : L.Terms->Terms) if (!kv.second.empty()) maxo = std::max(maxo, kv.first);
                 if (L.getTermStorage().getMaxTermOrder() != maxo) rec.violation("C20:max-term-order", "getMaxTermOrder is not the largest order with stored terms", hr);
+                for (unsigned n = 0; n <= 8; ++n) { size_t want = L.Terms->Terms.count(n) ? L.Terms->Terms.at(n).size() : 0; if (dump_terms(L, n).size() != want) rec.violation("C20:terms-by-order", "getTerms(n) does not return the terms stored under order n", hr); }
                 for (unsigned n = 0; n <= 8; ++n) { const Lattice::TermList& tl = L.getTermStorage().getTerms(n); for (auto it = tl.begin(); it != tl.end(); ++it) if ((*it)->getOrder() != n) rec.violation("C20:terms-by-order", "getTerms(n) returns a term of another order", hr); }
                 // copy defines the same model, and is independent of later changes
                 if (!R.sites.empty()) {
@@ -180,6 +187,7 @@ int run(const Args& a, Recorder& rec) {
                 if (op.is_site && R0.sites.count(op.site.label)) continue;       // re-adding a label is not in the alphabet
                 rec.enum_transitions++;
                 std::vector<int> h = nd.hist; h.push_back((int)k); std::string kase = hrepr(h);
+                if (op.query) { Lattice L; RState R; replay(L, R, A, h); std::string key = dump(L); if (mine) { rec.evaluations++; std::string vis = key.substr(0, key.find("|orders:")), bvis = before.substr(0, before.find("|orders:")); if (vis != bvis) rec.violation("C20:query-changes-lattice", "a read-only lookup changed the sites or terms", kase); } if (seen.insert(key).second) { Node n; n.hist = h; next.push_back(n); all.push_back(n); } continue; }
                 if (op.is_site) { Lattice L; RState R; replay(L, R, A, h); std::string key = dump(L); if (seen.insert(key).second) { Node n; n.hist = h; next.push_back(n); all.push_back(n); } continue; }
                 bool valid = ref_valid(op.g, R0.sites);
                 Lattice L; RState R; replay(L, R, A, nd.hist);
